@@ -25,7 +25,7 @@ SNIFF_TOKS = ['f{x:>3}', '\\e[1m', '\\e[31mX', '{a}', '{', '@x', '__class__', 'T
 SNIFF_CONSTS = ['f{x}', '0', "''", '[]', '1j', "b'x'", 'False', '{n}', '\\e[1m']
 
 
-def reload_routes(gtext, name):
+def reload_routes(gtext, name, inputs=()):
     """yields (route, callable returning (model_for_structure or None, parse function))"""
     import tatsu
     from tatsu.peg import Grammar
@@ -40,6 +40,27 @@ def reload_routes(gtext, name):
         m2 = pickle.loads(pickle.dumps(m))
         return m2, m2.parse
 
+    def via_pickle_used():
+        # a model that has already parsed (it caches its optimized, linked copy) must pickle as well as a fresh one
+        m = tatsu.compile(gtext, name=name)
+        for t in list(inputs)[:2]:
+            try:
+                m.parse(t)
+            except Exception:
+                pass
+        m2 = pickle.loads(pickle.dumps(m))
+        return m2, m2.parse
+
+    def via_json_used():
+        m = tatsu.compile(gtext, name=name)
+        for t in list(inputs)[:2]:
+            try:
+                m.parse(t)
+            except Exception:
+                pass
+        m2 = Grammar.loads(json.dumps(m.asjson()))
+        return m2, m2.parse
+
     def via_source():
         from tatsu.api.api import to_parsermodel_sourcecode
         src = to_parsermodel_sourcecode(gtext, name=name)
@@ -52,7 +73,7 @@ def reload_routes(gtext, name):
             return gm, (lambda t: p.parse(t, asmodel=False))
         finally:
             tu.unload(mod)
-    return [('json', via_json), ('pickle', via_pickle), ('source', via_source)]
+    return [('json', via_json), ('pickle', via_pickle), ('source', via_source), ('pickle-used', via_pickle_used), ('json-used', via_json_used)]
 
 
 _n = [0]
@@ -72,7 +93,7 @@ def check(gtext, inputs, only=None):
                 return None, info
             s1 = c13.structure(m)
             base = [tu.outcome(lambda t=t: m.parse(t)) for t in inputs]
-            for route, fn in reload_routes(gtext, name):
+            for route, fn in reload_routes(gtext, name, inputs):
                 if only and route != only:
                     continue
                 try:
